@@ -6,8 +6,7 @@ When the code tokens are listed in strictly increasing `(line, column)` order
 * sorting by position is sorting by index, so brace blocks are listed in start order;
 * `tokens.index(t)` returns the index of `t` itself; Python blocks are non-empty ranges listed in
   start order (for ordered headers);
-* hence (`ScopeSel.good`) every scope ends after its header start, and scopes are reported in
-  header-start order.
+* scopes are reported in header-start order.
 -/
 namespace CL
 
@@ -374,14 +373,24 @@ theorem pyBlocks_sorted {toks : List Tok} (hp : PosOrdered toks) {hs : List Head
     obtain ⟨_, _, _, _, _, _, _, _, _, h1, h2, _⟩ := hfrom.start hp
     exact ⟨h1, h2⟩
 
+/-- Python blocks on position-ordered tokens are non-empty ranges inside the tokens -/
+theorem pyBlocks_wf {toks : List Tok} (hp : PosOrdered toks) {hs : List Header}
+    (hwf : ∀ h ∈ hs, h.rng.s < h.rng.e) {rs : List Range} (h : pyBlocks toks hs = .ok rs) :
+    ∀ b ∈ rs, BlockWF toks.length b := by
+  obtain ⟨rs', hrs', hs', _, hf⟩ := pyBlocks_from toks hs hwf
+  rw [h] at hrs'; cases hrs'
+  intro b hb
+  obtain ⟨hd, _, hfrom⟩ := hf.mem_right hb
+  obtain ⟨_, _, _, _, _, _, _, _, _, h1, h2, _⟩ := hfrom.start hp
+  exact ⟨h1, h2⟩
+
 /-! ## scopes under position order -/
 
-/-- with blocks in start order every scope ends after some block that starts at or after the
-header start -/
+/-- every scope ends no earlier than some block that starts at or after the header end -/
 theorem buildScopes0_good {toks : List Tok} {hs : List Header} {bs : List Range} {sc : List Scope}
     (hwf : ∀ h ∈ hs, HeaderWF toks h) (hbwf : ∀ b ∈ bs, b.s ≤ b.e)
-    (hsorted : bs.Pairwise (fun a b => a.s ≤ b.s)) (h : buildScopes0 toks hs bs = .ok sc) :
-    ∀ s ∈ sc, s.hdr ∈ hs ∧ ∃ b ∈ bs, s.hdr.rng.s ≤ b.s ∧ b.e ≤ s.blk.e := by
+    (h : buildScopes0 toks hs bs = .ok sc) :
+    ∀ s ∈ sc, s.hdr ∈ hs ∧ ∃ b ∈ bs, s.hdr.rng.e ≤ b.s ∧ b.e ≤ s.blk.e := by
   have hlt : ∀ h ∈ hs, h.rng.s < toks.length := fun h hh => by
     have := hwf h hh; unfold HeaderWF at this; omega
   obtain ⟨rh, r, hrh, hr, hsub, hsel⟩ := buildScopes0_spec (blocks := bs) hlt
@@ -391,8 +400,7 @@ theorem buildScopes0_good {toks : List Tok} {hs : List Header} {bs : List Range}
     have : s.hdr ∈ rh.reverse := hsub.subset (List.mem_map.2 ⟨s, hs', rfl⟩)
     exact (sortDesc_perm_sorted hrh).1.mem_iff.1 (List.mem_reverse.1 this)
   obtain ⟨bl, hbl, hss⟩ := hsel s hs'
-  obtain ⟨b, hb, h1, h2⟩ := hss.good (hwf _ hmem).1 (fun b hb => hbwf b (hbl.subset hb))
-    (hsorted.sublist hbl)
+  obtain ⟨b, hb, h1, h2⟩ := hss.good (fun b hb => hbwf b (hbl.subset hb))
   exact ⟨hmem, b, hbl.subset hb, h1, h2⟩
 
 /-- scopes come out in header-start order; strictly when header starts are distinct -/
